@@ -1,1 +1,57 @@
-From CG Require Import Spec.Sets.
+(* Props/C10.v — C10: the cache honours its TTL: never stale beyond ttl, never refetching
+   fresh ranges.  Statements only (Proofs/CacheInv.v).  Holds for masked and keyed caches,
+   any source function, histories with source mutations. *)
+From CG Require Import Proofs.Defs Model.Cache Proofs.CacheInv.
+
+(* every reachable state: heap sorted, heap entries <-> cached segments with expiry = created+ttl,
+   segments pairwise disjoint, created <= now *)
+Theorem C10_heap_invariant : forall masked ttl tick t0 evs ops,
+  ttl > 0 -> tick >= 0 -> Forall op_ok ops ->
+  heap_inv ttl (r_state (crun_all masked ttl tick t0 evs ops)).
+Proof. exact heap_inv_reachable. Qed.
+Print Assumptions C10_heap_invariant.
+
+(* staleness: after the eviction pass that read the clock as t, a segment survives iff it was
+   fetched less than ttl before t *)
+Theorem C10_fresh_segments_only : forall ttl t s h1 cv1 sk1,
+  heap_inv ttl s -> evict_go t (heap s) (cover s) (sink s) = (h1, cv1, sk1) ->
+  (forall c, In c cv1 -> In c (cover s) /\ t < cv_t c + ttl) /\
+  (forall c, In c (cover s) -> ~ In c cv1 -> cv_t c + ttl <= t) /\
+  (forall c, In c (cover s) -> (In c cv1 <-> t < cv_t c + ttl)).
+Proof. exact fresh_covers_only. Qed.
+Print Assumptions C10_fresh_segments_only.
+
+(* economy: for a query in any reachable state the source fetches are exactly the maximal parts
+   of the window not covered by fresh segments — confined to the window, disjoint from every
+   fresh segment, pairwise separated, together with the fresh segments covering the window;
+   afterwards the window is covered by segments all fresher than ttl *)
+Theorem C10_economy : forall masked ttl tick t0 evs ops src a b rv s' out log,
+  ttl > 0 -> tick >= 0 -> Forall op_ok ops -> NEG_INF < a -> a < b -> b < POS_INF ->
+  let s := r_state (crun_all masked ttl tick t0 evs ops) in
+  cquery masked ttl tick src s a b rv = (s', out, log) ->
+  exists h1 cv1 sk1,
+    evict_go (now s) (heap s) (cover s) (sink s) = (h1, cv1, sk1) /\
+    (forall c, In c (cover s) -> (In c cv1 <-> now s < cv_t c + ttl)) /\
+    log = log_of tick (now s + tick) (gaps_of cv1 a b) /\
+    (forall t' gs ge, In (t', gs, ge) log ->
+       a <= gs /\ gs < ge /\ ge <= b /\ now s + tick <= t' /\
+       (forall c, In c cv1 -> cv_e c <= gs \/ ge <= cv_s c) /\
+       (gs = a \/ exists c, In c cv1 /\ cv_e c = gs) /\
+       (ge = b \/ exists c, In c cv1 /\ cv_s c = ge)) /\
+    log_sep log /\
+    (forall x, a <= x < b ->
+       (exists c, In c cv1 /\ cv_s c <= x < cv_e c) \/
+       (exists t' gs ge, In (t', gs, ge) log /\ gs <= x < ge)) /\
+    heap_inv ttl s' /\
+    (forall x, a <= x < b -> exists c, In c (cover s') /\ cv_s c <= x < cv_e c) /\
+    (forall c, In c (cover s') -> now s < cv_t c + ttl).
+Proof. exact C10_reachable. Qed.
+Print Assumptions C10_economy.
+
+(* a fully fresh window triggers no source fetch *)
+Theorem C10_no_refetch_while_fresh : forall masked ttl tick src s a b rv s' out log,
+  ttl > 0 -> tick >= 0 -> NEG_INF < a -> a < b -> b < POS_INF -> heap_inv ttl s ->
+  (forall x, a <= x < b -> exists c, In c (cover s) /\ cv_s c <= x < cv_e c /\ now s < cv_t c + ttl) ->
+  cquery masked ttl tick src s a b rv = (s', out, log) -> log = [].
+Proof. exact no_refetch_while_fresh. Qed.
+Print Assumptions C10_no_refetch_while_fresh.
